@@ -9,7 +9,7 @@ use std::collections::{BTreeMap, BTreeSet};
 
 /// Windows language identifiers (MS-LCID) of languages whose primary id is
 /// not shared by several ISO languages, with their standard tags.
-const WELL_KNOWN: [(u16, &str); 44] = [
+const WELL_KNOWN: [(u16, &str); 78] = [
     (1033, "en-US"),
     (2057, "en-GB"),
     (3081, "en-AU"),
@@ -54,6 +54,40 @@ const WELL_KNOWN: [(u16, &str); 44] = [
     (1063, "lt-LT"),
     (1025, "ar-SA"),
     (2058, "es-MX"),
+    (1057, "id-ID"),
+    (1066, "vi-VN"),
+    (1081, "hi-IN"),
+    (1065, "fa-IR"),
+    (1056, "ur-PK"),
+    (1086, "ms-MY"),
+    (1039, "is-IS"),
+    (1052, "sq-AL"),
+    (1059, "be-BY"),
+    (1067, "hy-AM"),
+    (1069, "eu-ES"),
+    (1071, "mk-MK"),
+    (1078, "af-ZA"),
+    (1079, "ka-GE"),
+    (1082, "mt-MT"),
+    (1087, "kk-KZ"),
+    (1089, "sw-KE"),
+    (1097, "ta-IN"),
+    (1098, "te-IN"),
+    (1099, "kn-IN"),
+    (1100, "ml-IN"),
+    (1102, "mr-IN"),
+    (1104, "mn-MN"),
+    (1106, "cy-GB"),
+    (1107, "km-KH"),
+    (1108, "lo-LA"),
+    (1110, "gl-ES"),
+    (1115, "si-LK"),
+    (1118, "am-ET"),
+    (1121, "ne-NP"),
+    (1124, "fil-PH"),
+    (1134, "lb-LU"),
+    (1153, "mi-NZ"),
+    (1159, "rw-RW"),
 ];
 
 /// Identifiers whose standard tag the table may only know as the bare
@@ -68,7 +102,7 @@ fn tag_of(code: u16) -> Result<String, String> {
 pub fn run(tier: Tier) -> i32 {
     let mut rep = Report::new("C17", tier, "model_checking");
     rep.assume("the set of tags the library knows is taken to be the image of tag() over all 65,536 codes; a language is 'known' when its bare tag is in that image");
-    rep.assume("well-known identifiers: 48 entries from the Windows language identifier reference, excluding primary id 0x1a (shared by hr/sr/bs)");
+    rep.assume("well-known identifiers: 82 entries from the Windows language identifier reference, excluding primary id 0x1a (shared by hr/sr/bs)");
 
     // ---- all codes -------------------------------------------------------
     let mut tags: BTreeMap<String, u16> = BTreeMap::new(); // tag -> smallest code
@@ -370,7 +404,7 @@ pub fn run(tier: Tier) -> i32 {
             rep.violation(sig, detail, json!({"kind":"c17-tag","tag":s}));
         }
     }
-    let total = 65536 * 3 + tags.len() as u64 + 48 + strings;
+    let total = 65536 * 3 + tags.len() as u64 + (WELL_KNOWN.len() + WELL_KNOWN_BARE_OK.len()) as u64 + strings;
     rep.set("states", total);
     rep.set("transitions", total);
     rep.set("traces_validated_against_impl", total);
@@ -382,7 +416,7 @@ pub fn run(tier: Tier) -> i32 {
     rep.set("tag_strings", strings);
     rep.set("tag_strings_with_known_language", nontrivial);
     rep.set("exhaustive", true);
-    rep.set("rule", "all 65,536 codes (code preserved, tag total, tag round trip, per-primary-id structure); every tag in the image maps to the smallest code carrying it; 48 identifier/tag pairs from the Windows reference; all strings ll, lll, ll-RR, lll-RR (+ odd shapes) over the tier's alphabets, with every known language x all 676 regions in both tiers. distinct_nontrivial = distinct tags + strings whose language part is known");
+    rep.set("rule", "all 65,536 codes (code preserved, tag total, tag round trip, per-primary-id structure); every tag in the image maps to the smallest code carrying it; 82 identifier/tag pairs from the Windows reference; all strings ll, lll, ll-RR, lll-RR (+ odd shapes) over the tier's alphabets, with every known language x all 676 regions in both tiers. distinct_nontrivial = distinct tags + strings whose language part is known");
     rep.sample(json!({"code": 1033, "tag": code_tag[1033]}));
     rep.sample(json!({"tag": "en-XX", "code": Language::from_tag("en-XX").code(), "back": Language::from_tag("en-XX").tag()}));
     rep.sample(json!({"tag": "zz-ZZ", "code": Language::from_tag("zz-ZZ").code()}));
